@@ -1,4 +1,11 @@
-//! C18 hook-level variant of the timestamp family: `e2e tsconn gen=<mono|script|none> seed=<s> ops=<op.op...>`
+//! C18 hook-level variant of the timestamp family: `e2e tsconn gen=<mono|script|none> bt=<l|u|c|mix> seed=<s> ops=<op.op...>`
+//!
+//! `bt` = the TYPE of every batch the case sends: Logged / Unlogged / Counter, or `mix` = by position (all three);
+//! absent = Unlogged. Batches are built alternately with `Batch::new` + `append_statement` and with
+//! `Batch::new_with_statements`. Setter histories (by position): a statement without an explicit timestamp may first
+//! get `set_timestamp(Some(junk))` and then `set_timestamp(None)`; one with an explicit timestamp may first get another
+//! value, and a batch may be CLONED after the setter and the clone sent. The oracle is unchanged: what was set last is
+//! what every frame carries.
 //!
 //! ONE real driver connection (`verif_hooks::connection::VerifConn`, generator set in its connection config) against
 //! one scripted node (mocknode), statements sent one after another:
@@ -45,7 +52,13 @@ pub fn generate(rng: &mut Rng, tier: Tier, emit: &mut dyn FnMut(String)) {
         ops.push(*rng.pick(&["E", "B", "U", "M"]));
         // the connection-level batch rebuild with an explicit timestamp, in every case
         ops.push("U");
-        emit(format!("e2e tsconn gen={} seed={} ops={}", ["mono", "script", "mono", "script", "none"][i % 5], rng.below(1 << 32), ops.join(".")));
+        emit(format!(
+            "e2e tsconn gen={} bt={} seed={} ops={}",
+            ["mono", "script", "mono", "script", "none"][i % 5],
+            ["mix", "c", "mix", "l", "c", "mix", "u"][i % 7],
+            rng.below(1 << 32),
+            ops.join(".")
+        ));
     }
 }
 
@@ -73,6 +86,10 @@ pub fn run(words: &[&str], ctx: &mut Ctx) -> String {
     let Some(p) = Params::parse(words) else { return "bad-case".into() };
     let (Some(seed), Some(ops_s)) = (p.num_or("seed", 1), p.str("ops")) else { return "bad-case".into() };
     let gen_kind = p.str("gen").unwrap_or("mono");
+    let bt = p.str("bt").unwrap_or("u");
+    if !["l", "u", "c", "mix"].contains(&bt) {
+        return "bad-case".into();
+    }
     let ops: Vec<&str> = ops_s.split('.').filter(|o| !o.is_empty()).collect();
     if !["mono", "script", "none"].contains(&gen_kind) || ops.len() > 500 || ops.iter().any(|o| !["e", "E", "b", "B", "q", "Q", "v", "u", "U", "m", "M", "p", "P"].contains(o)) {
         return "bad-case".into();
@@ -124,6 +141,31 @@ pub fn run(words: &[&str], ctx: &mut Ctx) -> String {
         for (oi, op) in ops.iter().enumerate() {
             let ts = op.chars().next().unwrap().is_ascii_uppercase().then(|| rng.i64_boundary());
             explicit.push(ts);
+            let batch_type = match bt {
+                "l" => BatchType::Logged,
+                "u" => BatchType::Unlogged,
+                "c" => BatchType::Counter,
+                _ => [BatchType::Logged, BatchType::Unlogged, BatchType::Counter][(seed as usize + oi) % 3],
+            };
+            // setter history (see the header): 0 = another value first, 1 = (batches) clone after the setter, 2 = plain
+            let sv = (seed as usize / 3 + oi) % 3;
+            let junk = -(4242 + oi as i64);
+            let build_batch = |stmts: Vec<scylla::statement::batch::BatchStatement>| {
+                let mut b = if (seed as usize + oi) % 2 == 0 {
+                    let mut b = Batch::new(batch_type);
+                    for st in stmts {
+                        b.append_statement(st);
+                    }
+                    b
+                } else {
+                    Batch::new_with_statements(batch_type, stmts)
+                };
+                if sv == 0 {
+                    b.set_timestamp(Some(junk));
+                }
+                b.set_timestamp(ts);
+                if sv == 1 { b.clone() } else { b }
+            };
             let calls_before = scripted.calls.load(Ordering::SeqCst);
             let ok = match op.to_ascii_lowercase().as_str() {
                 "v" => {
@@ -132,6 +174,9 @@ pub fn run(words: &[&str], ctx: &mut Ctx) -> String {
                 }
                 "e" => {
                     let mut h = ps.clone();
+                    if sv == 0 {
+                        h.set_timestamp(Some(junk));
+                    }
                     h.set_timestamp(ts);
                     let mut values = SerializedValues::new();
                     let _ = values.add_value(&key_of(oi), &ColumnType::Native(NativeType::Blob));
@@ -139,26 +184,22 @@ pub fn run(words: &[&str], ctx: &mut Ctx) -> String {
                     conn.execute(&h, &values, None, scylla::response::PagingState::start()).await.is_ok()
                 }
                 "b" => {
-                    let mut b = Batch::new(BatchType::Unlogged);
-                    b.append_statement(ps.clone());
-                    b.set_timestamp(ts);
+                    let b = build_batch(vec![ps.clone().into()]);
                     conn.batch(&b, ((key_of(oi), 0i32),)).await.is_ok()
                 }
                 "u" => {
-                    let mut b = Batch::new(BatchType::Unlogged);
-                    b.append_statement(Statement::new(INSERT));
-                    b.set_timestamp(ts);
+                    let b = build_batch(vec![Statement::new(INSERT).into()]);
                     conn.batch(&b, ((key_of(oi), 0i32),)).await.is_ok()
                 }
                 "m" => {
-                    let mut b = Batch::new(BatchType::Unlogged);
-                    b.append_statement(ps.clone());
-                    b.append_statement(Statement::new(INSERT));
-                    b.set_timestamp(ts);
+                    let b = build_batch(vec![ps.clone().into(), Statement::new(INSERT).into()]);
                     conn.batch(&b, ((key_of(oi), 0i32), (key_of(oi), 1i32))).await.is_ok()
                 }
                 "p" => {
                     let mut st = Statement::new(INSERT);
+                    if sv == 0 {
+                        st.set_timestamp(Some(junk));
+                    }
                     st.set_timestamp(ts);
                     match conn.prepare(&st).await {
                         Ok(h) => {
@@ -172,6 +213,9 @@ pub fn run(words: &[&str], ctx: &mut Ctx) -> String {
                 }
                 _ => {
                     let mut st = Statement::new(format!("INSERT INTO ks.t (pk, v) VALUES (0x{}, 0)", crate::util::hex(&key_of(oi))));
+                    if sv == 0 {
+                        st.set_timestamp(Some(junk));
+                    }
                     st.set_timestamp(ts);
                     conn.query(&st, None, scylla::response::PagingState::start()).await.is_ok()
                 }
